@@ -1,5 +1,6 @@
 import Exetera.Props.C12
 import Exetera.Model.KernelSitesJoin
+import Exetera.Model.KernelPathsJoin
 import Exetera.Model.KernelSitesNotModelled
 import Exetera.Gen.KernelShape
 import Exetera.Props.C10.Basic
@@ -27,6 +28,12 @@ owning property is a memory-safety theorem for the model's accesses. This proper
   source into `Gen/KernelShape.lean`, are exactly the ones the model was written against (`Model/KernelSites<Family>.lean`,
   whose doc comment maps every source subscript to the model accessor that stands for it) — a dropped guard conjunct or a
   new subscript in the source breaks the build instead of going unmodelled;
+* `access_paths_covered_<family>`: the same for the PATH CONDITION of every occurrence of every subscript — the ordered list
+  of enclosing loop guards, `if` / `elif` tests, negated `else` branches, negated early exits (`if …: break | continue |
+  return | raise`) and `and` / `or` operands to the left under which it executes — regenerated into `Gen/KernelPaths.lean`
+  and compared with `Model/KernelPaths<Family>.lean` (whose doc comment says which conjunct each checked accessor relies
+  on): a dominating test that is dropped, weakened or moved breaks the build. `kernel_paths_sites_match_shape`
+  (`Props/C10/Basic.lean`): the two generated tables list the same kernels and the same subscripts;
 * buffer statements that hold for ALL arguments: `push_oob_iff` / `pushV_oob_iff` / `setE_oob_iff` (a write is refused
   exactly when the position is not below the buffer size), `indexed_partial_buffers_bounded`,
   `concat_kernel_buffers_bounded` (no normally returning call leaves more elements in a result buffer than it has slots);
@@ -40,10 +47,12 @@ Journal (C17), Transforms (C06), Csv (C05), JoinFlat (C19), GroupBy (C07).
 
 Differential only (listed where they belong): kernels without a model (`KernelSites.notModelled`); the buffer-full /
 regrowth runs of the CSV reader
-(`Props/C10/Csv.lean`); indexed `unique` on columns with trailing NULs (`no_oob_unique_partial`); subscripts the models do
-not check (`Model/KernelSitesTransforms.lean` GAPS, `Model/KernelSitesMapValid.lean` `safe_map_indexed_values` result arrays).
-`if` tests that guard a subscript are not part of the regenerated shapes (only loop guards are): their removal is caught by
-the correspondence (the model has the branch), not by `access_sites_covered_*`.
+(`Props/C10/Csv.lean`); indexed `unique` on columns with trailing NULs (`no_oob_unique_partial`). Every subscript of a
+modelled kernel is checked by its model (the column subscript of the import transforms: `Transforms.withCol`; the result
+arrays of `numeric_bool_transform` and `safe_map_indexed_values`: capacity checks).
+A path condition is syntactic (the text of the tests passed, each true when it was passed): that an accessor is safe under
+it is the content of the `no_oob_*` theorems about the model; that the code has exactly these tests is
+`access_paths_covered_*`.
 What no model exhibits: the effect of an actual stray write on the heap.
 -/
 namespace Exetera.Props.C10
@@ -52,6 +61,14 @@ open Exetera Exetera.Join Exetera.Spec
 /-- the loop guards and subscripts of the modelled join kernels, as regenerated from the current source, are exactly the
     ones the model was written against -/
 theorem access_sites_covered_join : ∀ k ∈ KernelSites.joinSites, lookup k.1 = some k := by decide +kernel
+
+/-- the PATH CONDITION of every subscript occurrence in these kernels (enclosing loop guards, `if` / `elif` tests, negated
+    `else` branches and early exits), as regenerated from the current source (`Gen/KernelPaths.lean`), is exactly the one the
+    model was written against (`Model/KernelPathsJoin.lean`): dropping or changing a test that dominates a subscript breaks
+    the build; and the table covers exactly the kernels of the site table -/
+theorem access_paths_covered_join :
+    (∀ k ∈ KernelPaths.joinPaths, lookupPaths k.1 = some k) ∧
+    KernelPaths.joinPaths.map (·.1) = KernelSites.joinSites.map (·.1) := by decide +kernel
 
 /-- no out-of-bounds access at any site, in any of the eight join-map generators, for every valid input and every chunk
     size ≥ 1; in particular the chunk-sized result buffers are never overrun whatever the ratio of matches to rows -/
